@@ -350,12 +350,25 @@ func c12Frame(r *core.Run) {
 	// Decode: reads int16, dispatches, passes in[2:]
 	dinfo := dec.Pkg.TypesInfo
 	reads16, passes2, dispatch := false, false, ""
+	var readHelpers []string
 	ast.Inspect(dec.Decl.Body, func(n ast.Node) bool {
 		switch x := n.(type) {
 		case *ast.CallExpr:
 			f := core.Callee(dinfo, x)
-			if f != nil && strings.Contains(f.Name(), "Int16") {
+			if f != nil && (strings.Contains(f.Name(), "Int16") || strings.Contains(f.Name(), "Uint16")) && bigEndianReader(f) && lengthGuarded(dec, x, f) {
 				reads16 = true
+			}
+			// (the read may sit in a helper of the package that is handed the frame: readTypeCode(in))
+			if h := w.Info(f); h != nil && h.Pkg == dec.Pkg && h != dec && h.Decl.Body != nil {
+				ast.Inspect(h.Decl.Body, func(m ast.Node) bool {
+					if c, ok := m.(*ast.CallExpr); ok {
+						if g := core.Callee(h.Pkg.TypesInfo, c); g != nil && (strings.Contains(g.Name(), "Int16") || strings.Contains(g.Name(), "Uint16")) && bigEndianReader(g) && lengthGuarded(h, c, g) {
+							reads16 = true
+							readHelpers = append(readHelpers, "call:"+core.ShortKey(h.Obj)+"(")
+						}
+					}
+					return true
+				})
 			}
 			if f != nil && f.Name() == "GetCodec" && len(x.Args) == 2 {
 				dispatch = origin(dec, x.Args[1], 4)
@@ -371,7 +384,13 @@ func c12Frame(r *core.Run) {
 		return true
 	})
 	r.Sites++
-	r.Check(reads16 && passes2 && strings.Contains(dispatch, "Int16"), "C12.frame", "pkg/protocol/codec.(CodecManager).Decode dispatches on the 16-bit code and passes in[2:]", w.Pos(dec.Decl.Pos()), "type code read, codec chosen by it, body = in[2:]", "Decode does not (read a 16-bit code, choose the codec by it, pass in[2:])")
+	byCode := strings.Contains(dispatch, "Int16") || strings.Contains(dispatch, "Uint16")
+	for _, h := range readHelpers {
+		if strings.Contains(dispatch, h) {
+			byCode = true
+		}
+	}
+	r.Check(reads16 && passes2 && byCode, "C12.frame", "pkg/protocol/codec.(CodecManager).Decode dispatches on the 16-bit code and passes in[2:]", w.Pos(dec.Decl.Pos()), "type code read, codec chosen by it, body = in[2:]", "Decode does not (read a 16-bit code, choose the codec by it, pass in[2:])")
 }
 
 // byteBounded decides whether the value written at call position `at` has a byte length <= limit on every
@@ -964,4 +983,56 @@ func rangedElemTypes(w *core.World, fn *core.FuncInfo, e ast.Expr) []types.Type 
 		}
 	}
 	return out
+}
+
+// bigEndianReader: a 16-bit reader of encoding/binary must be the big-endian one (other packages' readers are the
+// big-endian byteio / ByteBuffer readers of the wire vocabulary)
+func bigEndianReader(f *types.Func) bool {
+	if f.Pkg() == nil || f.Pkg().Path() != "encoding/binary" {
+		return true
+	}
+	rn := core.RecvNamed(f)
+	return rn != nil && rn.Obj().Name() == "bigEndian"
+}
+
+// lengthGuarded: encoding/binary's ByteOrder.Uint16(b) indexes b[1] and panics on a shorter slice (the stream
+// readers answer an error instead); such a read counts only behind `if len(b) < k { return .. }` (k >= 2) earlier
+// in the same function. A body of one byte at the end of the buffer is a legal input of the frame reader.
+func lengthGuarded(fn *core.FuncInfo, call *ast.CallExpr, callee *types.Func) bool {
+	if callee.Pkg() == nil || callee.Pkg().Path() != "encoding/binary" || len(call.Args) != 1 {
+		return true
+	}
+	info := fn.Pkg.TypesInfo
+	buf := core.ObjOf(info, call.Args[0])
+	if buf == nil {
+		return false
+	}
+	ok := false
+	ast.Inspect(fn.Decl.Body, func(n ast.Node) bool {
+		ifs, isIf := n.(*ast.IfStmt)
+		if !isIf || ifs.Pos() > call.Pos() || len(ifs.Body.List) == 0 {
+			return true
+		}
+		if _, isRet := ifs.Body.List[len(ifs.Body.List)-1].(*ast.ReturnStmt); !isRet {
+			return true
+		}
+		be, isBin := ast.Unparen(ifs.Cond).(*ast.BinaryExpr)
+		if !isBin || be.Op != token.LSS {
+			return true
+		}
+		lc, isCall := ast.Unparen(be.X).(*ast.CallExpr)
+		if !isCall || len(lc.Args) != 1 || core.ObjOf(info, lc.Args[0]) != buf {
+			return true
+		}
+		if id, isID := ast.Unparen(lc.Fun).(*ast.Ident); !isID || id.Name != "len" {
+			return true
+		}
+		if v := core.ConstVal(info, be.Y); v != nil {
+			if k, exact := constant.Int64Val(v); exact && k >= 2 {
+				ok = true
+			}
+		}
+		return true
+	})
+	return ok
 }
